@@ -332,3 +332,86 @@ Proof.
   { destruct debug; [rewrite (Hdp eq_refl)|]; reflexivity. }
   rewrite Hdbg, Hsel, find_slot_key, He. rewrite Et, Eo, Er. reflexivity.
 Qed.
+
+(* An accepted safe call IS the kernel run of the selected back end's register model with dims = len a: every
+   kernel-level theorem (C02-C08 on [run_kernel] / the generic_* kernels) transfers to the safe API through this
+   equation, for all 19 kernels, under every build configuration and arbitrary predicate outcomes. *)
+Section SafeIsKernel.
+  Variables (s : safe_entry) (f : form) (bc : buildcfg) (p : pouts) (debug : bool).
+  Variables (m : safe_macro) (sf : safe_fn) (k : kernel) (x : slot).
+  Hypothesis Hs : In s safe_entries.
+  Hypothesis Hm : find_safe_macro safe_macros (s_macro s) = Some m.
+  Hypothesis Hsf : safe_fn_of m f = Some sf.
+  Hypothesis Hk : safe_kernel s = Some k.
+  Hypothesis Hsel : select_chain dispatch_chain bc p (supplied_of sf) = Some x.
+  Hypothesis Hx : x <> SNeon.
+
+  Lemma export_gen_is_kernel {T} (ops : option (SimdOps T)) (R : SimdOps T) (Mt : MathOps T) DIMS v (a b res : list T) :
+    ops = Some R ->
+    asserts_pass {| len_a := List.length a; len_b := List.length b; len_r := List.length res; len_dims := DIMS |} (sf_asserts sf) = true ->
+    run_export_gen ops Mt k debug (dims_of f DIMS (List.length a)) v a b res
+    = xo (run_kernel R Mt k (List.length a) v (init_mem a b res)).
+  Proof.
+    intros -> Hp. destruct (asserts_give_fit s f m sf k Hs Hm Hsf Hk DIMS a b res Hp) as [Hd [Hb Hr]].
+    unfold run_export_gen. rewrite Hd. rewrite (debug_pass_gen k (List.length a) a b res eq_refl Hb Hr).
+    rewrite andb_false_r. reflexivity.
+  Qed.
+
+  Theorem safe_int_is_kernel_run :
+    forall DIMS v a b res,
+      is_float (s_ty s) = false ->
+      let l := {| len_a := List.length a; len_b := List.length b; len_r := List.length res; len_dims := DIMS |} in
+      asserts_pass l (sf_asserts sf) = true ->
+      (debug = true -> asserts_pass l (sf_debug_asserts sf) = true) ->
+      exists R, int_ops (allowed_backend x (s_ty s)) (s_ty s) = Some R /\
+        run_safe dispatch_chain run_export_int exports safe_macros s f bc p debug DIMS v a b res
+        = xo (run_kernel R (int_math (is_signed (s_ty s)) (width (s_ty s))) k (List.length a) v (init_mem a b res)).
+  Proof.
+    intros DIMS v a b res Hty l Hp Hdp.
+    assert (HR : exists R, int_ops (allowed_backend x (s_ty s)) (s_ty s) = Some R).
+    { unfold int_ops. rewrite Hty. destruct x; cbn [allowed_backend]; rewrite ?Hty; try (eexists; reflexivity).
+      contradiction. }
+    destruct HR as [R HR]. exists R. split; [exact HR|].
+    rewrite (safe_run_is_export_run run_export_int s f bc p debug m sf k x Hs Hm Hsf Hk Hsel DIMS v a b res Hp Hdp).
+    unfold run_export_int, key_export. cbn [e_reg e_ty e_op]. unfold int_signed.
+    apply export_gen_is_kernel; assumption.
+  Qed.
+
+  Theorem safe_f32_is_kernel_run :
+    forall DIMS v a b res,
+      s_ty s = F32 ->
+      let l := {| len_a := List.length a; len_b := List.length b; len_r := List.length res; len_dims := DIMS |} in
+      asserts_pass l (sf_asserts sf) = true ->
+      (debug = true -> asserts_pass l (sf_debug_asserts sf) = true) ->
+      exists R, f32_ops (allowed_backend x F32) = Some R /\
+        run_safe dispatch_chain run_export_f32 exports safe_macros s f bc p debug DIMS v a b res
+        = xo (run_kernel R float_math k (List.length a) v (init_mem a b res)).
+  Proof.
+    intros DIMS v a b res Hty l Hp Hdp.
+    assert (HR : exists R, f32_ops (allowed_backend x F32) = Some R).
+    { destruct x; cbn [allowed_backend is_float f32_ops]; try (eexists; reflexivity). contradiction. }
+    destruct HR as [R HR]. exists R. split; [exact HR|].
+    rewrite (safe_run_is_export_run run_export_f32 s f bc p debug m sf k x Hs Hm Hsf Hk Hsel DIMS v a b res Hp Hdp).
+    unfold run_export_f32, key_export. cbn [e_reg e_ty e_op]. rewrite Hty.
+    apply export_gen_is_kernel; assumption.
+  Qed.
+
+  Theorem safe_f64_is_kernel_run :
+    forall DIMS v a b res,
+      s_ty s = F64 ->
+      let l := {| len_a := List.length a; len_b := List.length b; len_r := List.length res; len_dims := DIMS |} in
+      asserts_pass l (sf_asserts sf) = true ->
+      (debug = true -> asserts_pass l (sf_debug_asserts sf) = true) ->
+      exists R, f64_ops (allowed_backend x F64) = Some R /\
+        run_safe dispatch_chain run_export_f64 exports safe_macros s f bc p debug DIMS v a b res
+        = xo (run_kernel R float_math k (List.length a) v (init_mem a b res)).
+  Proof.
+    intros DIMS v a b res Hty l Hp Hdp.
+    assert (HR : exists R, f64_ops (allowed_backend x F64) = Some R).
+    { destruct x; cbn [allowed_backend is_float f64_ops]; try (eexists; reflexivity). contradiction. }
+    destruct HR as [R HR]. exists R. split; [exact HR|].
+    rewrite (safe_run_is_export_run run_export_f64 s f bc p debug m sf k x Hs Hm Hsf Hk Hsel DIMS v a b res Hp Hdp).
+    unfold run_export_f64, key_export. cbn [e_reg e_ty e_op]. rewrite Hty.
+    apply export_gen_is_kernel; assumption.
+  Qed.
+End SafeIsKernel.
